@@ -62,6 +62,8 @@ class Alphabet:
         self.wins = [Win(0, None, True)] + [Win(i + 1, [off + sc * x for x in w['oc']], w['cut']) for i, w in enumerate(rec['wins'])]
         self.clips = {0: (1, len(self.nat_i))}
         self.clips.update({i + 1: tuple(c) for i, c in enumerate(rec['clips'])})
+        self.inner = {0: (1, len(self.nat_i))}
+        self.inner.update({i + 1: tuple(c) for i, c in enumerate(rec['inner'])})
         self.collide = {}
         for key in ('samesize', 'samefirst', 'sameends'):
             for a, b in rec[key]:
@@ -174,6 +176,18 @@ class Fixture:
         self.events = []          # (event, cls, detail, vector)
         self.not_thin = []
         self.nrefs = 0
+        self.fresh_grids = {}
+        self.inexact = 0
+
+    def fresh_range(self, alpha, kind, win):
+        """index range of the grid a freshly built model returns for the request (it does not depend on T, mix)"""
+        key = (alpha.name, kind, win.w)
+        if key not in self.fresh_grids:
+            g = Holder(alpha, kind, T_VALUES[kind][0], MIX_VALUES[kind][0]).evaluate(win)[0]
+            lo = int(np.searchsorted(alpha.nat, g[0])) + 1 if len(g) else -1
+            ok = len(g) > 0 and lo + len(g) - 1 <= len(alpha.nat) and np.array_equal(g, alpha.nat[lo - 1:lo - 1 + len(g)])
+            self.fresh_grids[key] = (lo, lo + len(g) - 1) if ok else (-1, -1)
+        return self.fresh_grids[key]
 
     def full(self, alpha, kind, T, mix):
         """the full native computation of a freshly built model (never evaluated on anything else)"""
@@ -245,9 +259,16 @@ def replay_behaviour(fx, alpha, kind, T, mix, evals, clause='history_equals_full
             ctx.verdict(clause, False, cls=cls, detail='%s model after %s: evaluation raised %s: %s' % (kind, ' > '.join(trail), type(ex).__name__, ex), vector=vec)
             return
         lo, hi, gdev, dev, tdev, text = fx.compare(alpha, kind, T, mix, win, res)
-        ok_grid = np.array_equal(res[0], expect)
+        # the statement does not prescribe the clip margin: the computed grid must be a contiguous part of the native
+        # grid covering the observation's own range, and the one a fresh model computes for the CURRENT request
+        flo, fhi = fx.fresh_range(alpha, kind, win)
+        ilo, ihi = alpha.inner[step['w']]
+        ok_grid = lo >= 1 and (lo, hi) == (flo, fhi) and (ilo == 0 or (lo <= ilo and ihi <= hi)) and (win.cut or (lo, hi) == (1, len(alpha.nat)))
+        if not np.array_equal(res[0], expect):
+            fx.inexact += 1                                        # not the documented clip Grid!GClip exported by TLC
         ctx.verdict('history_grid_is_clip_of_request', ok_grid, cls=cls,
-                    detail='%s model after %s: returned grid %r, the clip of the current request is %r' % (kind, ' > '.join(trail), res[0].tolist()[:8], expect.tolist()[:8]), vector=vec)
+                    detail='%s model after %s: returned grid %r; a fresh model computes native[%d:%d] for this request, the documented clip is %r'
+                           % (kind, ' > '.join(trail), res[0].tolist()[:8], flo - 1, fhi, expect.tolist()[:8]), vector=vec)
         ctx.verdict(clause, ok_grid and dev <= TOL and tdev <= TOL, cls=cls,
                     detail='%s model (T=%g, mix=%g) evaluated on %s: %s' % (kind, T, mix, ' > '.join(trail), text), vector=vec)
         prev = step['w']
@@ -294,9 +315,11 @@ class HistScenario(history.Scenario):
             raise
         self.evals += 1
         lo, hi, gdev, dev, tdev, text = self.fx.compare(a, self.kind, T, mix, win, res)
-        plo, phi = a.clips[h.prev] if h.prev is not None else (0, 0)
+        plo, phi = h.prev_range if h.prev is not None else (0, 0)
+        flo, fhi = self.fx.fresh_range(a, self.kind, win)
         ev = dict(ev='heval', nat=a.nat_i, oc=win.oc or [], cut=1 if win.cut else 0, lo=lo, hi=hi, n=len(res[0]), gdev=gdev,
-                  dev=dev, tdev=tdev, tol=TOL, plo=plo, phi=phi)
+                  dev=dev, tdev=tdev, tol=TOL, plo=plo, phi=phi, flo=flo, fhi=fhi)
+        h.prev_range = (flo, fhi)
         self.fx.events.append((ev, self.name, '%s model (T=%g, mix=%g) on %s after %s: %s' % (self.kind, T, mix, win.label, ' '.join(h.trail[:-1]) or 'construction', text), vec))
         h.prev = win.w
         return dict(grid=res[0], spectrum=res[1], layers=res[2])
